@@ -468,6 +468,10 @@ struct C20 {
             op.variant = (int) r.below(5);
             if (op.api == A_NEEDS_REHASH && op.variant == 2) op.variant = 0;
             op.N = 1u << r.range(1, 4); op.r = (uint32_t) r.range(1, 2); op.p = (uint32_t) r.range(1, 2);
+            // rarely a working area of the size class of the "sensitive" limits (a little over 128 MiB): allocation code paths
+            // that depend on the size of the request (huge pages, chunking) only run there
+            // (thorough tier only: at -O0 one such operation with all its failure positions takes longer than the quick tier's watchdog allows)
+            if (thorough && r.below(300) == 0) { op.api = A_SCRYPT_LL; op.N = 1u << 17; op.r = 8; op.p = 1; }
             op.size = r.pick<uint64_t>({0, 1, 15, 16, 17, 4080, 4081, 4096, 8192, 100000});
             op.count = r.pick<uint64_t>({0, 1, 3, 16, 1000});
             if (op.api == A_SALLOCARRAY) op.size = r.pick<uint64_t>({0, 1, 8, 24, 4096});
